@@ -410,6 +410,8 @@ def full_stack(chk):
                 break
             if drain_between:
                 adv.drain()
+            if not x.closed():
+                sim.query(x, 'idle')     # a message prefix waiting for its last octet is not "idle"
             complete = [m for m, e in zip(msgs, ends) if e <= fed]
             want_state = 'established' if len(complete) >= 2 else ('session-negotiating' if len(complete) >= 1 else 'contact-negotiating')
             if not x.closed() and str(x.h._state) != want_state and bad is None:
@@ -430,6 +432,12 @@ def full_stack(chk):
                     bad = ('C07:full-stack-delivered-differs', 'bundles delivered %s differ from those of the stream %s' % ([len(g) for g in got], [len(b) for b in bundles]))
         elif bad is None and x.closed():
             bad = ('C07:full-stack-closed', 'the endpoint closed the connection on a valid pipelined stream')
+        if bad is None:
+            import tcpcl_monitors as tm
+            for (sig, what) in tm.mon_c18_queues(sim):
+                if sig == 'C18:idle-unsound':
+                    bad = ('C07:idle-with-partial-message', what)
+                    break
         if bad:
             chk.violation(bad[0], bad[1], {'passive': passive, 'chunks': [c2.hex() for c2 in chunks], 'events': x.events, 'cfg': x.model_cfg()})
         sims.append((sim, 'full-stack %d' % i))
